@@ -39,7 +39,10 @@ func ParseConfig() (*Config, error) {
 		return nil, fmt.Errorf("failed to load config (%s): %v", envPath, err)
 	}
 
-	c.ParseBlocklists()
+	err = c.ParseBlocklists()
+	if err != nil {
+		return nil, fmt.Errorf("failed to load config (%s): %v", envPath, err)
+	}
 
 	return &c, nil
 }
